@@ -171,3 +171,50 @@ def clock_obligation(rep, vfile, what, prefixes, search=None):
                       dict(failed_theorem=thm, theorem_file="coq/theories/Properties/" + vfile, clock_calls=clock_rows(prefixes), coqc=out[-600:],
                            searched="a schedule on which the property fails was searched for and not found" if search else "no search for a failing schedule is implemented for this obligation"),
                       no_input=True)
+
+
+def reload_count(rep, pid, tier, unordered, caches=("lru", "rr")):
+    """long uptime of the mapper: 65 540 (thorough: 131 080) successful reloads in one process; sentinel names cached 1, 2, 255,
+    256, 257, 65535, 65536, 65537 (131071, 131072) reloads before the end must be answered by the configuration loaded last"""
+    n = 65540 if tier == "quick" else 131080
+    gaps = [1, 2, 3, 255, 256, 257, 511, 512, 65535, 65536, 65537] + ([131071, 131072, 131073] if tier != "quick" else [])
+    d = vf.tmpdir(pid)
+    cases = ["%s %d %d %d %s" % (c, sz, n, 1 if unordered else 0, ",".join(map(str, gaps))) for c in caches for sz in ((1000,) if tier == "quick" else (1000, 3))]
+    vf.write_lines(f"{d}/reloadcount.cases", cases)
+    for c, o in zip(cases, vf.run_hx("reloadcount", f"{d}/reloadcount.cases", timeout=3000)):
+        rep.count(n)
+        bad = [x for x in o.split()[1:] if x.split(":", 1)[1].split(":")[0] != x.rsplit(":", 1)[1]] if o.startswith("reloads=") else [o]
+        if bad:
+            g = bad[0].split(":")[0]
+            rep.violation("after many reloads a lookup is answered from a configuration that is no longer loaded (an answer cached %s reloads ago came back)" % g,
+                          dict(case=c, cache=c.split()[0], cache_size=int(c.split()[1]), reloads=n, unordered=bool(unordered),
+                               stale=[dict(zip(("cached_reloads_ago", "answer_with_cache", "answer_of_a_fresh_mapper"), x.split(":"))) for x in bad[:5]],
+                               how="harness/cmd/hx/reloadcount.go: configurations cycle with period 3 and end on a fourth; svc.g<k> is looked up once, k reloads before the end, and again after the last reload"))
+            break
+    rep.extra["reload_count_runs"] = cases
+
+
+def digest_rows():
+    src = open(GEN).read()
+    if "Definition digest_table" not in src:
+        return []
+    src = src[src.index("Definition digest_table"):]
+    src = src[:src.index("].")]
+    return re.findall(r'\("([^"]*)", "([^"]*)"\)', src)
+
+
+def digest_obligation(rep, what):
+    """The models identify series, cache entries and names by their full strings: re-check on the current source that
+    nothing in main or pkg/ calls a digest function (Properties/C05_digest.v)."""
+    ok, log = regenerate()
+    if not ok:
+        rep.violation("the access table could not be regenerated from /repo", dict(log=log), no_input=True)
+        return
+    ok, out = compile_obligation("C05_digest.v")
+    rep.extra["digest_obligation"] = "C05_no_identity_by_digest: " + ("checked" if ok else "FAILED")
+    if not ok:
+        rep.violation("generated obligation C05_no_identity_by_digest no longer checks: %s" % what,
+                      dict(failed_theorem="C05_no_identity_by_digest", theorem_file="coq/theories/Properties/C05_digest.v", digest_calls=digest_rows(), coqc=out[-600:],
+                           searched="the twin corpora of this check (equal FNV-1a / CRC-32 / Adler-32 sums, shifted separators, length-prefix twins) ran before this obligation; "
+                                    "a digest they do not cover needs twins built for it"),
+                      no_input=not rep.violations)
